@@ -11,7 +11,7 @@ RULE = (
     "step: complete enumeration of crc8404B(bytes([b]), s) for all 2^16 start values s x 256 byte values b against a "
     "bit-serial LFSR (reflected poly 0x8408, no final XOR); every (s,b) pair is a distinct non-trivial case (counted "
     "by the enumerator; shards are disjoint ranges of s). short: all strings of length 0..2 with default start. "
-    "long: Hypothesis byte strings (0..4096 / 65536 bytes) with random start, passed as bytes/bytearray/memoryview/list; "
+    "long: Hypothesis byte strings (0..4096 / 65536 bytes) with random start, passed as bytes/bytearray/memoryview/list/tuple and as memoryview WINDOWS (a slice of a larger buffer, a strided view) and bytearray slices; "
     "non-trivial = length >= 3 (beyond what step+short enumerate), distinct by content hash. Every result must be in 0..0xFFFF."
 )
 ASSUMPTIONS = [
@@ -19,7 +19,7 @@ ASSUMPTIONS = [
     "(crc8404B folds the step left to right and the step's result was checked to stay within 16 bits); the induction is a paper argument",
     "reference: bit-at-a-time LFSR pinned by the CRC-16/MCRF4XX check value 0x6F91 for '123456789'",
 ]
-REQUIRED_CLASSES = ["step.result==0", "long.container=memoryview", "long.len>=256"]
+REQUIRED_CLASSES = ["step.result==0", "long.container=memoryview", "long.container=memoryview-window", "long.container=memoryview-strided", "long.len>=256"]
 
 env.load_repo()
 from bec2format.bec2file import crc8404B  # noqa: E402
@@ -76,7 +76,19 @@ def bulk_short(tier, shard, nshards, rec, rng):
 
 def check_long(case, rec):
     data, start, container = case["data"], case["start"], case["container"]
-    arg = {"bytes": bytes, "bytearray": bytearray, "memoryview": memoryview, "list": list}[container](data)
+    if container == "memoryview-window":
+        # a memoryview that covers only part of its underlying object
+        pre, post = case.get("pre", b"\x11\x22"), case.get("post", b"\x33")
+        arg = memoryview(pre + data + post)[len(pre): len(pre) + len(data)]
+    elif container == "memoryview-strided":
+        inter = bytearray(2 * len(data))
+        inter[0::2] = data
+        inter[1::2] = bytes([0xEE]) * len(data)
+        arg = memoryview(bytes(inter))[::2]
+    elif container == "bytearray-window":
+        arg = bytearray(b"\x55" + data + b"\x66")[1: 1 + len(data)]
+    else:
+        arg = {"bytes": bytes, "bytearray": bytearray, "memoryview": memoryview, "list": list, "tuple": tuple}[container](data)
     rec.cls("long.container=" + container)
     if len(data) >= 256:
         rec.cls("long.len>=256")
@@ -105,7 +117,8 @@ def strat_long(tier):
     return st.fixed_dictionaries(dict(
         data=data,
         start=st.one_of(st.none(), st.integers(0, 0xFFFF), st.sampled_from([0, 0xFFFF, 0x8408, 0x1021, 1, 0x8000])),
-        container=st.sampled_from(["bytes", "bytearray", "memoryview", "list"]),
+        container=st.sampled_from(["bytes", "bytearray", "memoryview", "list", "tuple", "memoryview-window", "memoryview-strided", "bytearray-window"]),
+        pre=st.binary(max_size=5), post=st.binary(max_size=5),
     ))
 
 
@@ -113,6 +126,9 @@ def enum_vectors(tier, shard, nshards, rng):
     # published check value and a few structured inputs, start given or defaulted
     yield dict(data=b"123456789", start=None, container="bytes")
     yield dict(data=b"123456789", start=0xFFFF, container="memoryview")
+    yield dict(data=b"123456789", start=None, container="memoryview-window", pre=b"xx", post=b"yyy")
+    yield dict(data=b"", start=0x4321, container="memoryview-window", pre=b"abc", post=b"def")
+    yield dict(data=b"123456789", start=None, container="memoryview-strided")
     for n in (3, 15, 16, 17, 255, 256, 257):
         yield dict(data=bytes(n), start=None, container="bytes")
         yield dict(data=b"\xff" * n, start=0, container="bytearray")
